@@ -2,6 +2,15 @@
 """Regenerates MANIFEST.json from the table below (the claimed set must match checker/props.go)."""
 import json, re, subprocess
 claims = {
+ "C02": ("SIBLING-4/8 + BC-2/3/5/6 + KINDSW", "4", "No node kind, opcode or type kind falls into an unreachable branch; the stack-effect induction shows pops never exceed pushes for any compiled program; growth precedes every store; operand ranges are asserted not truncated; a function value is never called strictly without consulting its Lazy flag (today violated at OP_DYNAMIC_CALL: known finding). Exact partial-operation semantics of float->int conversions are run-time values and not decided."),
+ "C04": ("SIBLING-2 normal-form equality of VM opcode twins + INTGUARD + SIG-2", "4", "Thin claim: static analysis does not compute values. Decided are three necessary conditions: the VM's inline re-implementation of each built-in is the same expression as the library's, integer rendering is guarded by IsInt with a 2^63 bound, every built-in is registered exactly once. IEEE arithmetic, tolerance, rune counting, set semantics, strtotime and literal decoding are not decided."),
+ "C06": ("LAZY argument-builder discipline + SIBLING-3 ite-abstraction + BC-3 jump consistency", "4", "In each back end arguments are evaluated only in the not-Lazy branch and deferred otherwise, thunks are stateless single evaluations, the lazy built-ins force the condition once and then only the selected operand, the VM's conditional jumps make then/else exclusive, strict operands are popped back into source order."),
+ "C11": ("BC-1..7 + SIG-3: induction over the bytecode compiler's source", "4", "Writer/reader operand agreement per opcode (and Go type of constants), width assertions, symbolic stack-effect walk of every emitter (net +1, never negative, both arms agree), jump placeholders patched once with forward boundary offsets at equal depth, opcode tables complete, one constant pool per compiler. This is the whole statement as an inductive fact about compiler source; the checker (not a proof assistant) is the trusted base."),
+ "C15": ("CONV + SIBLING-10 kind-table agreement + PANIC-1", "4", "Type path and value path classify every reflect.Kind alike, depth limit on entry with lv+1 recursion, nil tested before use, unconditional homogeneity assertions, lock-step struct construction, conv entries return errors. Equality of contents with the Go value is not decided."),
+ "C16": ("CONV-2 + EQ-FIELDS/UN-1 kind matching + TC-4 + SIBLING-2(get) + ENVCHK", "4", "Optional is its own kind that only equals/unifies with optional, member/subscript demand object/list/map kinds, nil host fields become Nothing of the static type, get(maybe) VM twin equals the library, the env check precedes evaluation. The universal statement over programs is not decided."),
+ "C19": ("DEBUG shape rules + LAZY + PANIC-1", "4", "Exactly the four term kinds are recorded at their own columns by a recorder that evaluates once and returns the same value, columns flow from tokens through desugaring, the record is fresh and cleared per run, the renderer counts runes, lazy operands are not evaluated (hence not recorded) unless selected. Equality with normal evaluation is C03."),
+ "C20": ("SQL precedence constants + flow of run-time values through fmtVal + formatter shapes", "4", "NOT > AND > OR by constant evaluation, parenthesise iff outer power exceeds own, every run-time value and literal passes fmtVal, strings only through strconv.Quote, exact bool/num/time forms, connectives in position, no lazy SQL function. Re-parsing the output is not done."),
+
  "C01": ("EQ-FIELDS + TC + KINDSW + LAYOUT", "4", "Checker obligations that preservation rests on (homogeneity, arity/argument comparison, annotations written, slot-free instantiation), structural type equality compares every component like with like, and every index into an object value comes from that value's own layout. Necessary conditions decided for all programs; the soundness theorem itself is not proved."),
  "C03": ("sibling cross-check of the two dispatch loops, node-kind coverage, opcode tables, thunk state, function tables", "4", "The two VM loops are compared handler by handler, every back end handles every core node kind, every opcode is handled/registered/named, thunk calls restore state, the two function tables are kept in lock-step. Agreement of sibling implementations is decided for all programs; value-level equality of results is not."),
  "C05": ("TC checker-obligation rules + EQ-FIELDS + KEY-1 + SIBLING-9", "4", "One obligation per typing rule of the statement, decided on the checker's source for all programs; the biconditional as a whole and unification's algebra are not decided."),
